@@ -215,8 +215,8 @@ def diff_lines(model_path, impl_path):
     i = open(impl_path).read().splitlines()
     diffs = []
     for k in range(max(len(m), len(i))):
-        a = m[k] if k < len(m) else "<missing>"
-        b = i[k] if k < len(i) else "<missing>"
+        a = m[k].rstrip() if k < len(m) else "<missing>"
+        b = i[k].rstrip() if k < len(i) else "<missing>"
         if a != b:
             sa, sb = split_sections(a), split_sections(b)
             names = [n for n in sorted(set(sa) | set(sb)) if sa.get(n) != sb.get(n)]
